@@ -337,3 +337,205 @@ theorem server_members_listed :
       Generated.Metadata.updateMustNotInclude.contains = true := by decide +kernel
 
 end Props.C18Reg
+
+namespace Props.C18Reg
+open Model.Metadata Model.Registration Model.Url
+
+/-! ### OpenID Connect registration claims -/
+
+theorem mget_setDefault_ne (p : Doc) (k k' : String) (v : V) (h : k' ≠ k) : mget (setDefault p k v) k' = mget p k' := by
+  unfold setDefault
+  split
+  · rfl
+  · unfold mget
+    rw [lookup_append]
+    have hb : (k' == k) = false := by simpa using h
+    cases p.lookup k' <;> simp [List.lookup, hb]
+
+theorem mget_setDefault_self (p : Doc) (k : String) (v : V) : mget (setDefault p k v) k = if has p k then mget p k else v := by
+  unfold setDefault
+  by_cases hh : has p k = true
+  · simp [hh]
+  · simp only [hh, Bool.false_eq_true, if_false]
+    unfold mget
+    rw [lookup_append]
+    have : p.lookup k = none := by
+      unfold has at hh
+      cases hl : p.lookup k with
+      | none => rfl
+      | some x => simp [hl] at hh
+    simp [this, List.lookup]
+
+theorem mget_encPair_ne (p : Doc) (alg enc k : String) (h : k ≠ enc) : mget (encPair p alg enc).2 k = mget p k := by
+  unfold encPair
+  split
+  · rfl
+  · simp only
+    split
+    · exact mget_setDefault_ne p enc k _ h
+    · rfl
+
+/-- through all the defaults the class fills in, a member that is not itself defaulted keeps its value -/
+theorem mget_final (p0 : Doc) (k : String)
+    (h : k ∉ ["application_type", "id_token_signed_response_alg", "id_token_encrypted_response_enc", "userinfo_encrypted_response_enc",
+              "require_auth_time", "request_object_encryption_enc"]) :
+    mget (encPair (setDefault (encPair (encPair (setDefault (setDefault p0 "application_type" (.a (.str "web"))) "id_token_signed_response_alg" (.a (.str "RS256")))
+      "id_token_encrypted_response_alg" "id_token_encrypted_response_enc").2 "userinfo_encrypted_response_alg" "userinfo_encrypted_response_enc").2
+      "require_auth_time" (.a (.bool false))) "request_object_encryption_alg" "request_object_encryption_enc").2 k = mget p0 k := by
+  simp only [List.mem_cons, List.mem_nil_iff, or_false, not_or] at h
+  obtain ⟨h1, h2, h3, h4, h5, h6⟩ := h
+  rw [mget_encPair_ne _ _ _ _ h6, mget_setDefault_ne _ _ _ _ h5, mget_encPair_ne _ _ _ _ h4, mget_encPair_ne _ _ _ _ h3,
+      mget_setDefault_ne _ _ _ _ h2, mget_setDefault_ne _ _ _ _ h1]
+
+theorem uriEntryErr_none_str (k s : String) (h : uriEntryErr k (.str s) = none) : s = "" ∨ isValidUrl s.toList true = true := by
+  unfold uriEntryErr at h
+  by_cases he : s = ""
+  · exact Or.inl he
+  · right
+    have : (s != "") = true := by simpa using he
+    simp only [A.truthy, this, Bool.not_true, Bool.false_eq_true, if_false] at h
+    by_cases hv : isValidUrl s.toList true = true
+    · exact hv
+    · simp [hv] at h
+
+theorem checkUriOrList_none (p : Doc) (k : String) (h : checkUriOrList p k = none) :
+    (∀ s, mget p k = .a (.str s) → s = "" ∨ isValidUrl s.toList true = true) ∧
+    (∀ xs, mget p k = .l xs → ∀ s, A.str s ∈ xs → s = "" ∨ isValidUrl s.toList true = true) := by
+  unfold checkUriOrList at h
+  constructor
+  · intro s hs
+    rw [hs] at h
+    exact uriEntryErr_none_str k s h
+  · intro xs hx s hmem
+    rw [hx] at h
+    simp only at h
+    have hnil : xs.filterMap (uriEntryErr k) = [] := by
+      cases hl : xs.filterMap (uriEntryErr k) with
+      | nil => rfl
+      | cons a r => rw [hl] at h; simp at h
+    have := (List.filterMap_eq_nil_iff.mp hnil) (A.str s) hmem
+    exact uriEntryErr_none_str k s this
+
+theorem chk_ok {e : Option Err} {k : CR} {d : Doc} (h : chk e k = .ok d) : e = none ∧ k = .ok d := by
+  unfold chk at h
+  split at h
+  · cases h
+  · cases h
+  · exact ⟨rfl, h⟩
+
+theorem inAllowed_none (m : OidcMeta) (k : String) (v : V) (vals : List String) (h : inAllowed m k v = none)
+    (hm : m.allowed.lookup k = some vals) (hne : vals ≠ []) (ht : v.truthy = true) : ∃ x, v = .a x ∧ mem x (vals.map A.str) = true := by
+  unfold inAllowed at h
+  simp only [hm] at h
+  have he : vals.isEmpty = false := by cases vals <;> simp at hne ⊢
+  simp only [he, ht, Bool.not_true, Bool.or_self, Bool.false_eq_true, if_false] at h
+  cases v with
+  | l xs => simp at h
+  | a x =>
+    simp only at h
+    by_cases hmem : mem x (vals.map A.str) = true
+    · exact ⟨x, rfl, hmem⟩
+    · simp [hmem] at h
+
+/-- **what the OpenID registration claims class stores**: application_type is web or native, the two
+    signing algorithms are never "none", the subject type is one the provider supports, and every
+    sector_identifier_uri / initiate_login_uri / request_uris entry is empty or an absolute URL -/
+theorem oidc_validated_is_good (m : OidcMeta) (p0 stored : Doc) (h : validateOidcClaims m p0 = .ok stored) :
+    (mget stored "application_type" = .a (.str "web") ∨ mget stored "application_type" = .a (.str "native")) ∧
+    mget stored "token_endpoint_auth_signing_alg" ≠ .a (.str "none") ∧
+    mget stored "id_token_signed_response_alg" ≠ .a (.str "none") ∧
+    (∀ vals, m.allowed.lookup "subject_type" = some vals → vals ≠ [] → (mget stored "subject_type").truthy = true →
+        ∃ x, mget stored "subject_type" = .a x ∧ mem x (vals.map A.str) = true) ∧
+    (∀ k ∈ ["sector_identifier_uri", "initiate_login_uri", "request_uris"],
+        (∀ s, mget stored k = .a (.str s) → s = "" ∨ isValidUrl s.toList true = true) ∧
+        (∀ xs, mget stored k = .l xs → ∀ s, A.str s ∈ xs → s = "" ∨ isValidUrl s.toList true = true)) := by
+  unfold validateOidcClaims at h
+  obtain ⟨e1, h⟩ := chk_ok h
+  obtain ⟨_, h⟩ := chk_ok h
+  obtain ⟨e3, h⟩ := chk_ok h
+  obtain ⟨e4, h⟩ := chk_ok h
+  obtain ⟨e5, h⟩ := chk_ok h
+  obtain ⟨e6, h⟩ := chk_ok h
+  obtain ⟨_, h⟩ := chk_ok h
+  obtain ⟨_, h⟩ := chk_ok h
+  obtain ⟨_, h⟩ := chk_ok h
+  obtain ⟨_, h⟩ := chk_ok h
+  obtain ⟨_, h⟩ := chk_ok h
+  obtain ⟨_, h⟩ := chk_ok h
+  obtain ⟨_, h⟩ := chk_ok h
+  obtain ⟨_, h⟩ := chk_ok h
+  obtain ⟨_, h⟩ := chk_ok h
+  obtain ⟨_, h⟩ := chk_ok h
+  obtain ⟨_, h⟩ := chk_ok h
+  obtain ⟨e18, h⟩ := chk_ok h
+  obtain ⟨_, h⟩ := chk_ok h
+  obtain ⟨_, h⟩ := chk_ok h
+  obtain ⟨_, h⟩ := chk_ok h
+  obtain ⟨_, h⟩ := chk_ok h
+  obtain ⟨e23, h⟩ := chk_ok h
+  injection h with h
+  -- what the stored document holds under a registered key is what the final payload holds
+  have hst : ∀ k, oidcRegistered.contains k = true → mget stored k = mget (encPair (setDefault (encPair (encPair (setDefault (setDefault p0 "application_type" (.a (.str "web")))
+      "id_token_signed_response_alg" (.a (.str "RS256"))) "id_token_encrypted_response_alg" "id_token_encrypted_response_enc").2
+      "userinfo_encrypted_response_alg" "userinfo_encrypted_response_enc").2 "require_auth_time" (.a (.bool false)))
+      "request_object_encryption_alg" "request_object_encryption_enc").2 k := by
+    intro k hk
+    rw [← h]
+    unfold mget
+    rw [lookup_filter_key _ (fun k => oidcRegistered.contains k) k hk]
+  have keep : ∀ k, oidcRegistered.contains k = true → k ∉ ["application_type", "id_token_signed_response_alg", "id_token_encrypted_response_enc",
+      "userinfo_encrypted_response_enc", "require_auth_time", "request_object_encryption_enc"] → mget stored k = mget p0 k := by
+    intro k hk hn
+    rw [hst k hk, mget_final p0 k hn]
+  have hat : mget stored "application_type" = mget (setDefault p0 "application_type" (.a (.str "web"))) "application_type" := by
+    rw [hst _ (by decide), mget_encPair_ne _ _ _ _ (by decide), mget_setDefault_ne _ _ _ _ (by decide), mget_encPair_ne _ _ _ _ (by decide),
+        mget_encPair_ne _ _ _ _ (by decide), mget_setDefault_ne _ _ _ _ (by decide)]
+  have hid : mget stored "id_token_signed_response_alg" =
+      mget (setDefault (setDefault p0 "application_type" (.a (.str "web"))) "id_token_signed_response_alg" (.a (.str "RS256"))) "id_token_signed_response_alg" := by
+    rw [hst _ (by decide), mget_encPair_ne _ _ _ _ (by decide), mget_setDefault_ne _ _ _ _ (by decide), mget_encPair_ne _ _ _ _ (by decide),
+        mget_encPair_ne _ _ _ _ (by decide)]
+  refine ⟨?_, ?_, ?_, ?_, ?_⟩
+  · rw [hat]
+    by_cases hw : (mget (setDefault p0 "application_type" (.a (.str "web"))) "application_type" == .a (.str "web")) = true
+    · exact Or.inl (by simpa using hw)
+    · by_cases hn : (mget (setDefault p0 "application_type" (.a (.str "web"))) "application_type" == .a (.str "native")) = true
+      · exact Or.inr (by simpa using hn)
+      · simp [hw, hn] at e3
+  · rw [keep _ (by decide) (by decide)]
+    intro hnone
+    simp [isStrNone, hnone] at e1
+  · rw [hid]
+    intro hnone
+    -- the value was not "none" before the default was filled in, and the default is RS256
+    rw [mget_setDefault_self] at hnone
+    split at hnone
+    · simp [isStrNone, hnone] at e6
+    · simp at hnone
+  · intro vals hm hne ht
+    rw [keep _ (by decide) (by decide)] at ht ⊢
+    rw [mget_setDefault_ne _ _ _ _ (by decide)] at e5
+    exact inAllowed_none m _ _ vals e5 hm hne ht
+  · intro k hk
+    simp only [List.mem_cons, List.mem_nil_iff, or_false] at hk
+    rcases hk with rfl | rfl | rfl
+    · rw [keep _ (by decide) (by decide)]
+      rw [show checkUriOrList (setDefault p0 "application_type" (.a (.str "web"))) "sector_identifier_uri" = checkUriOrList p0 "sector_identifier_uri" from by
+        unfold checkUriOrList; rw [mget_setDefault_ne _ _ _ _ (by decide)]] at e4
+      exact checkUriOrList_none p0 _ e4
+    · rw [keep _ (by decide) (by decide)]
+      have : checkUriOrList p0 "initiate_login_uri" = none := by
+        have := e18
+        unfold checkUriOrList at this ⊢
+        rw [mget_setDefault_ne _ _ _ _ (by decide), mget_encPair_ne _ _ _ _ (by decide), mget_encPair_ne _ _ _ _ (by decide),
+            mget_setDefault_ne _ _ _ _ (by decide), mget_setDefault_ne _ _ _ _ (by decide)] at this
+        exact this
+      exact checkUriOrList_none p0 _ this
+    · rw [keep _ (by decide) (by decide)]
+      have : checkUriOrList p0 "request_uris" = none := by
+        have := e23
+        unfold checkUriOrList at this ⊢
+        rw [mget_final p0 _ (by decide)] at this
+        exact this
+      exact checkUriOrList_none p0 _ this
+
+end Props.C18Reg
